@@ -100,41 +100,49 @@ namespace Pistache::Tcp
                 handleNotify();
             }
 
-            else if (entry.isReadable())
+            else
             {
-                auto tag = entry.getTag();
-                if (isPeerFd(tag))
+                // A descriptor can be reported readable and writable in the same event
+                // (edge-triggered: the writable edge is not reported again)
+                if (entry.isReadable())
                 {
-                    auto& peer = getPeer(tag);
-                    handleIncoming(peer);
-                }
-                else if (isTimerFd(tag))
-                {
-                    auto it      = timers.find(static_cast<decltype(timers)::key_type>(tag.value()));
-                    auto& entry_ = it->second;
-                    handleTimer(std::move(entry_));
-                    timers.erase(it->first);
-                }
-            }
-            else if (entry.isWritable())
-            {
-                auto tag = entry.getTag();
-                auto fd  = static_cast<Fd>(tag.value());
-
-                {
-                    Guard guard(toWriteLock);
-                    auto it = toWrite.find(fd);
-                    if (it == std::end(toWrite))
+                    auto tag = entry.getTag();
+                    if (isPeerFd(tag))
                     {
-                        throw std::runtime_error(
-                            "Assertion Error: could not find write data");
+                        auto& peer = getPeer(tag);
+                        handleIncoming(peer);
+                    }
+                    else if (isTimerFd(tag))
+                    {
+                        auto it      = timers.find(static_cast<decltype(timers)::key_type>(tag.value()));
+                        auto& entry_ = it->second;
+                        handleTimer(std::move(entry_));
+                        timers.erase(it->first);
                     }
                 }
+                if (entry.isWritable())
+                {
+                    auto tag = entry.getTag();
+                    auto fd  = static_cast<Fd>(tag.value());
 
-                reactor()->modifyFd(key(), fd, NotifyOn::Read, Polling::Mode::Edge);
+                    {
+                        Guard guard(toWriteLock);
+                        auto it = toWrite.find(fd);
+                        if (it == std::end(toWrite))
+                        {
+                            // the peer went away while its input was handled
+                            if (entry.isReadable())
+                                continue;
+                            throw std::runtime_error(
+                                "Assertion Error: could not find write data");
+                        }
+                    }
 
-                // Try to drain the queue
-                asyncWriteImpl(fd);
+                    reactor()->modifyFd(key(), fd, NotifyOn::Read, Polling::Mode::Edge);
+
+                    // Try to drain the queue
+                    asyncWriteImpl(fd);
+                }
             }
         }
     }
